@@ -738,8 +738,12 @@ pub fn validate_json_for_entity(
     entity: &Entity,
     json: &Option<String>,
 ) -> Result<(), crate::database::Error> {
-    if let Some(json_str) = json {
-        let json: serde_json::Value = serde_json::from_str(json_str)?;
+    {
+        //a row without json content carries no field at all: required fields are then missing
+        let json: serde_json::Value = match json {
+            Some(json_str) => serde_json::from_str(json_str)?,
+            None => serde_json::Value::Object(serde_json::Map::new()),
+        };
         if !json.is_object() {
             return Err(crate::database::Error::InvalidJsonObject(
                 "in NodeFull".to_string(),
